@@ -198,7 +198,10 @@ ServerDone ==
 
 \* application datagram shapes: lists of packets given as lists of frame kinds
 Shapes == { <<<<"stream">>>>, <<<<"ack", "stream", "pad">>>>, <<<<"stream", "ping", "stream">>>>,
-            <<<<"ack">>>>, <<<<"maxdata", "stream", "stream", "ack">>>>, <<<<"dgram", "ncid">>>> }
+            <<<<"ack">>>>, <<<<"maxdata", "stream", "stream", "ack">>>>, <<<<"dgram", "ncid">>>>,
+            <<<<"stream", "fin0">>>>,      \* fin0: a STREAM frame of length 0 that only carries FIN (closes a stream after its last data)
+            <<<<"fin0", "ack">>>>,         \* ... alone in its datagram: nothing to export
+            <<<<"nst">>>> }                \* nst: a post-handshake CRYPTO frame in a 1-RTT packet (NewSessionTicket): never exported without -a
 \* (a short-header packet has no length field and is always the last packet of its datagram: one 1-RTT packet each)
 RECURSIVE MkFrames(_, _, _)
 MkFrames(kinds, i, id) ==
